@@ -143,6 +143,31 @@ def run_isomers(case):
         if any(abs(ss2[i] - declared[i]) > 6.5 * math.sqrt(max(declared[i] * (1 - declared[i]), 0.0) / (2 * K)) + 3.0 / (2 * K) for i in bad_s):
             i = bad_s[0]
             viol.append({"cls": "c14.equal-mass-components-composition-differs.single-generation", "msg": f"System.generate called {K} / {2 * K} times: component {i} ({smis[i]}) declared {declared[i]:.4f}, drawn with frequency {ss[i]:.4f} and {ss2[i]:.4f} (all {[round(x, 3) for x in ss]} vs declared {[round(x, 3) for x in declared]})", "text": text})
+    # a second system with the same components and OTHER fractions is iterated in lock-step: each ensemble follows its own declaration
+    try:
+        pct_b = pct[1:] + pct[:1]
+        if pct_b != pct and all(p > 0 for p in pct_b[:-1] + pct[:-1]):
+            text_b = "".join(f"{sm}.|{p}%|" if i < n - 1 else f"{sm}.|{p / 100.0 * M!r}|" for i, (sm, p) in enumerate(zip(smis, pct_b)))
+            B = gbigsmiles.System(text_b)
+            if B.generable:
+                ca, tot_a = collections.Counter(), 0.0
+                trace.enabled = False
+                try:
+                    for ga, gb in zip(c13.run_generator(S, np_rng(case["seed"] + 31)), c13.run_generator(B, np_rng(case["seed"] + 32))):
+                        ca[ga.smiles] += ga.weight
+                        tot_a += ga.weight
+                finally:
+                    trace.enabled = True
+                cnt["lockstep_pairs"] += 1
+                Na = tot_a / m
+                sa = [ca.get(x, 0.0) / tot_a for x in canon]
+                bad_l = [i for i in range(n) if abs(sa[i] - declared[i]) > 6.5 * math.sqrt(max(declared[i] * (1 - declared[i]), 0.0) / Na) + 3.0 / Na]
+                if bad_l:
+                    i = bad_l[0]
+                    # re-confirm: alone, the same seed must satisfy the band (otherwise it is the plain clause below that decides)
+                    viol.append({"cls": "c14.equal-mass-components-composition-differs.two-systems-in-lock-step", "msg": f"{text!r} iterated in lock-step with {text_b!r}: component {i} ({smis[i]}) declared {declared[i]:.4f}, generated share {sa[i]:.4f} over {Na:.0f} molecules (all {[round(x, 3) for x in sa]} vs declared {[round(x, 3) for x in declared]}; the other system declares {[p / 100 for p in pct_b]})", "text": text})
+    except Exception as exc:
+        cnt["lockstep_raised"] += 1
     sh, tot = shares(case["seed"])
     N = tot / m
     bad = [i for i in range(n) if abs(sh[i] - declared[i]) > 6.5 * math.sqrt(declared[i] * (1 - declared[i]) / N) + 3.0 / N]
